@@ -82,6 +82,10 @@ type Case struct {
 	// sstable.BlockCache) and a second compaction coordinator whose public
 	// file-tracker entry points are called.
 	Aux bool `json:"aux"`
+	// CloseBusy: Close is called right after the last caller returned, while
+	// the background flush goroutine may still be working. false = the child
+	// first waits until the flush goroutine is idle.
+	CloseBusy bool `json:"close_busy"`
 }
 
 // Operation names. Facade ops, then compaction-manager ops, then aux ops.
@@ -94,6 +98,10 @@ const (
 	opPause                               = "pause"
 	opSstGet, opFtMark, opFtClean         = "sstget", "ftmark", "ftclean"
 	opFtQuery, opAuxCompact               = "ftquery", "auxcompact"
+	// replication-facing entry points of the facade
+	opGetWAL, opROToggle, opIsRO = "getwal", "rotoggle", "isro"
+	// transactions through the registry the gRPC service uses
+	opRTx, opRClean, opRConn = "rtx", "rclean", "rconn"
 )
 
 var roles = map[string]map[string]int{
@@ -101,11 +109,13 @@ var roles = map[string]map[string]int{
 	"deleter": {opDel: 12, opPut: 3, opBatch: 3, opIsDel: 3, opTomb: 1, opPreserve: 1},
 	"reader": {opGet: 8, opIsDel: 3, opIter: 4, opRIter: 4, opStats: 1, opTx: 2},
 	"scanner": {opIter: 8, opRIter: 8, opGet: 2},
-	"txer":   {opTx: 12, opGet: 2, opPut: 2},
+	"txer":   {opTx: 10, opRTx: 5, opRClean: 1, opRConn: 1, opGet: 2, opPut: 2},
+	"repl":   {opGetWAL: 8, opROToggle: 1, opIsRO: 3, opStats: 2, opPause: 3, opPut: 2},
 	"maint": {opFlush: 6, opCompact: 4, opCRange: 4, opStats: 3, opCStats: 3, opPause: 4, opPut: 3},
 	"stats": {opStats: 8, opCStats: 8, opGet: 2, opPause: 2},
 	"mixed": {opPut: 6, opGet: 4, opDel: 3, opIsDel: 1, opBatch: 2, opIter: 2, opRIter: 2, opTx: 3,
-		opFlush: 2, opCompact: 1, opCRange: 1, opStats: 1, opCStats: 1, opTomb: 1, opPreserve: 1},
+		opFlush: 2, opCompact: 1, opCRange: 1, opStats: 1, opCStats: 1, opTomb: 1, opPreserve: 1,
+		opRTx: 1, opRClean: 1, opGetWAL: 1, opIsRO: 1},
 	"aux": {opSstGet: 14, opFtMark: 4, opFtClean: 3, opFtQuery: 2, opAuxCompact: 1, opPut: 2},
 }
 
@@ -245,7 +255,9 @@ func (g *genState) step(t *rapid.T, role string) Step {
 	case opRIter:
 		s, n := g.scanArgs(t)
 		return Step{Op: op, A: g.bound(t), B: g.bound(t), Seek: s, N: n}
-	case opTx:
+	case opRConn:
+		return Step{Op: op, K: rapid.IntRange(0, 11).Draw(t, "peer")}
+	case opTx, opRTx:
 		ro := rapid.IntRange(0, 2).Draw(t, "ro") == 0
 		m := rapid.IntRange(0, 6).Draw(t, "ntx")
 		var body []TxOp
@@ -295,6 +307,7 @@ func genCase(t *rapid.T) Case {
 		{"writer", "deleter", "maint", "maint"},
 		{"txer", "writer", "scanner", "maint"},
 		{"stats", "writer", "maint", "deleter"},
+		{"repl", "writer", "writer", "deleter", "maint", "txer"},
 	}
 	mix := rapid.SampledFrom(mixes).Draw(t, "mix")
 	if c.Aux {
@@ -311,8 +324,13 @@ func genCase(t *rapid.T) Case {
 	}
 	c.Yields = genYields(t)
 	c.MinRunMs = rapid.SampledFrom([]int{0, 0, 300, 600, 1100, 1100, 1300, 1500}).Draw(t, "minrun")
-	c.MaxRounds = rapid.SampledFrom([]int{1, 5, 50, 400}).Draw(t, "maxrounds")
-	c.RoundPauseUs = rapid.SampledFrom([]int{0, 100, 1000, 5000}).Draw(t, "roundpause")
+	c.MaxRounds = rapid.SampledFrom([]int{1, 20, 1000, 1000, 1000}).Draw(t, "maxrounds")
+	c.RoundPauseUs = rapid.SampledFrom([]int{0, 200, 1000, 5000, 20000}).Draw(t, "roundpause")
+	c.CloseBusy = rapid.IntRange(0, 3).Draw(t, "closebusy") != 0
+	if c.CloseBusy && !ev.Flag("close_while_flushing") {
+		ev.R().Exclude("close_while_flushing")
+		c.CloseBusy = false
+	}
 	return c
 }
 
@@ -324,7 +342,7 @@ func isWriteStep(s Step) bool {
 		return true
 	case opBatch:
 		return len(s.Body) > 0
-	case opTx:
+	case opTx, opRTx:
 		if s.RO || !s.Commit {
 			return false
 		}
@@ -362,7 +380,7 @@ func shapeOf(c *Case) shape {
 				}
 			case opIter, opRIter:
 				sc = true
-			case opTx:
+			case opTx, opRTx:
 				tx = true
 			case opFlush, opCompact, opCRange:
 				m = true
